@@ -1001,3 +1001,62 @@ def _replay_write_pixels(inputs, ghost=None):
         if viol:
             return r
     return first
+
+
+@custom("cooler._reduce:CoolerMerger.__iter__")
+def _replay_merger_iter(inputs, ghost=None):
+    """k real coolers whose bin1_offset indexes follow the counter-model (row sizes capped to what an upper
+    triangle can hold), merged with the model's buffer size: the concatenation of the yielded chunks must be the
+    sorted group-by-sum of all input pixels.  The model's buffer size first, then 1, 2, 3, 5 and 10**6."""
+    import os
+    import shutil
+    import tempfile
+    import numpy as np
+    import pandas as pd
+    import cooler
+    from cooler._reduce import CoolerMerger
+    g = {k: conv(v) for k, v in (ghost or {}).items()}
+    k = int(g.get("r_k") or 1)
+    Os = [[int(x) for x in list(g.get(f"r_O{i}"))] for i in range(k) if g.get(f"r_O{i}") is not None]
+    out = {"inputs_used": {"indexes": [o[:12] for o in Os], "mergebuf": g.get("r_mergebuf")}}
+    if len(Os) != k or any(len(o) < 2 or len(o) > 9 for o in Os):
+        Os = [[0, 2, 2, 3, 5], [0, 0, 1, 4, 4], [0, 3, 3, 3, 4]][:k]
+        out["inputs_used"]["indexes"] = Os
+        out["inputs_used"]["note"] = "model indexes not buildable: a fixed family of indexes with empty rows is used"
+    nb = len(Os[0]) - 1
+    d = tempfile.mkdtemp(prefix="pyvc_mi_")
+    bins = pd.DataFrame({"chrom": ["a"] * nb, "start": [10 * i for i in range(nb)], "end": [10 * (i + 1) for i in range(nb)]})
+    clrs, allpix = [], []
+    for i, O in enumerate(Os):
+        rows = []
+        for r in range(nb):
+            cnt = max(0, min(O[r + 1] - O[r], nb - r))
+            rows += [(r, r + j, 1 + (i + r + j) % 4) for j in range(cnt)]
+        pix = pd.DataFrame(rows, columns=["bin1_id", "bin2_id", "count"]).astype({"bin1_id": int, "bin2_id": int, "count": int})
+        p = os.path.join(d, f"in{i}.cool")
+        cooler.create_cooler(p, bins, pix)
+        clrs.append(cooler.Cooler(p))
+        allpix.append(pix)
+    exp = pd.concat(allpix).groupby(["bin1_id", "bin2_id"], sort=True)["count"].sum().reset_index()
+    mb0 = g.get("r_mergebuf")
+    first = None
+    for n_try, mb in enumerate([mb0 if isinstance(mb0, int) and 1 <= mb0 <= 10 ** 7 else 2, 1, 2, 3, 5, 10 ** 6]):
+        viol, raised, got = [], None, None
+        try:
+            chunks = list(CoolerMerger(clrs, mb))
+            got = (pd.concat([pd.DataFrame(c) for c in chunks], ignore_index=True) if chunks
+                   else pd.DataFrame({"bin1_id": [], "bin2_id": [], "count": []}))
+        except Exception as e:
+            raised = e
+        if raised is not None:
+            viol.append(f"merging raised {type(raised).__name__}: {raised}")
+        elif not (list(got["bin1_id"]) == list(exp["bin1_id"]) and list(got["bin2_id"]) == list(exp["bin2_id"])
+                  and list(got["count"]) == list(exp["count"])):
+            viol.append(f"merged stream has {len(got)} records summing to {got['count'].sum()}, expected {len(exp)} summing to {exp['count'].sum()} (sorted group-by-sum of the inputs)")
+        r = dict(out, mergebuf_used=mb, raised=None if raised is None else str(raised), violations=viol, violates_contract=bool(viol))
+        if first is None:
+            first = r
+        if viol:
+            break
+    shutil.rmtree(d, ignore_errors=True)
+    return r if viol else first
